@@ -1691,7 +1691,12 @@ def scan(
 
     # 4. Back to Blelloch. Now that we have the increment, add it to the blocks of `scanned`.
     #    Use general_blockwise with a key function since the chunks of increment and scanned aren't aligned anymore.
-    assert increment.shape[axis] == scanned.numblocks[axis]
+    if increment.shape[axis] != scanned.numblocks[axis]:
+        raise NotImplementedError(
+            f"Scan along an axis with {scanned.numblocks[axis]} chunks is not supported: "
+            f"the number of chunks must be at most {split_every}, or a multiple of {split_every} "
+            "at every level of the scan. Consider rechunking along the scan axis."
+        )
 
     def back_key_function(out_key: ChunkKey) -> FunctionArgs[ChunkKey]:
         out_coords = out_key.coords
